@@ -431,12 +431,14 @@ def run_server(spec):
     cmd = [sys.executable, "-m", "gunicorn", "--chdir", d, "-w", str(spec.get("workers", 2)),
            "-k", spec.get("worker_class", "sync"), "--bind", "unix:" + sockp, "--pid", os.path.join(d, "g.pid"),
            "--error-logfile", os.path.join(d, "err.log"), "--worker-tmp-dir", "/dev/shm"]
+    envargs = []
+    tgt = envargs if spec.get("via_env") else cmd        # via_env: the settings come from GUNICORN_CMD_ARGS
     if spec.get("user") is not None:
-        cmd += ["--user", str(spec["user"])]
+        tgt += ["--user", str(spec["user"])]
     if spec.get("group") is not None:
-        cmd += ["--group", str(spec["group"])]
+        tgt += ["--group", str(spec["group"])]
     if spec.get("initgroups"):
-        cmd += ["--initgroups"]
+        tgt += ["--initgroups"]
     conf = os.path.join(d, "conf.py")
     if spec.get("badhup"):
         # a configuration file that is valid at start and invalid when HUP re-reads it
@@ -445,6 +447,10 @@ def run_server(spec):
         cmd += ["-c", conf]
     cmd += ["privsapp:app"]
     env = dict(os.environ, PYTHONPATH=REPO, VERIF_PRIVS_LOG=log, PYTHONDONTWRITEBYTECODE="1")
+    env.pop("GUNICORN_CMD_ARGS", None)
+    if envargs:
+        env["GUNICORN_CMD_ARGS"] = " ".join(envargs)
+    newmaster = None
     p = subprocess.Popen(cmd, cwd=d, env=env, stdout=subprocess.DEVNULL, stderr=subprocess.DEVNULL)
     obs = {"spec": spec, "gens": [], "master": [], "error": ""}
     nw = spec.get("workers", 2)
@@ -498,7 +504,32 @@ def run_server(spec):
                 os.kill(p.pid, signal.SIGHUP)
                 wait_for(lambda: len(set(children(p.pid)) - before) >= nw and not (set(children(p.pid)) & before), 20)
                 snap("hup", exclude=before)
+                if spec.get("usr2"):
+                    # binary upgrade: the workers of the master started by USR2
+                    os.kill(p.pid, signal.SIGUSR2)
+
+                    def new_master():
+                        try:
+                            with open(os.path.join(d, "g.pid.2")) as f:
+                                return int(f.read().strip() or 0) or None
+                        except (OSError, ValueError):
+                            return None
+                    newmaster = wait_for(new_master, 15)
+                    if newmaster:
+                        ws = wait_for(lambda: children(newmaster) if len(children(newmaster)) >= nw else None, 15) or []
+                        time.sleep(0.5)
+                        for c in children(newmaster):
+                            obs["gens"].append({"kind": "usr2", "pid": c, "status": proc_status(c)})
+                        obs["master"].append(proc_status(newmaster))
+                    else:
+                        obs["error"] = "no upgraded master appeared"
     finally:
+        if newmaster:
+            try:
+                os.kill(newmaster, signal.SIGTERM)
+                wait_for(lambda: proc_status(newmaster) is None, 8)
+            except OSError:
+                pass
         if p.poll() is None:
             p.terminate()
             try:
